@@ -22,9 +22,11 @@ import (
 type Val any
 
 type AType struct { // abstract types.SemType value
-	Kind string // "prim", "enum", "ref", "dynarray", "array", "map", "struct", "func", "iface", "optional", "result", "union", "named"
-	Name string // primitive name for Kind=="prim"
+	Kind  string // "prim", "enum", "ref", "dynarray", "array", "map", "struct", "func", "iface", "optional", "result", "union", "named"
+	Name  string // primitive name for Kind=="prim"
+	Under *AType // underlying type for Kind=="named"
 }
+type structVal map[string]Val // composite literal with field keys
 type nilVal struct{}
 type errVal struct{}           // a non-nil error
 type unknownVal struct{ Why string }
@@ -74,6 +76,9 @@ type PEval struct {
 	primVars map[types.Object]string // types.TypeI8 -> "i8"
 	// Hook lets a rule interpret calls the evaluator cannot (return ok=false to decline).
 	Hook func(pe *PEval, info *types.Info, call *ast.CallExpr, args []Val) (Val, bool)
+	// RecvDefaults: value used as receiver when a method of the named type is called on an unknown receiver
+	// (e.g. "DataLayout" -> structVal{"PointerSize": 8}).
+	RecvDefaults map[string]Val
 	// LastReturn is the return statement that produced the most recent top-level result.
 	LastReturn *ast.ReturnStmt
 	LastFn     *Fn
@@ -514,6 +519,22 @@ func (pe *PEval) expr(env *penv, e ast.Expr, depth int) Val {
 			return &AType{Kind: "prim", Name: n}
 		}
 		if sel := env.info.Selections[x]; sel != nil && sel.Kind() == types.FieldVal {
+			base := pe.expr(env, x.X, depth)
+			if sv, ok := base.(structVal); ok {
+				if v, ok := sv[sel.Obj().Name()]; ok {
+					return v
+				}
+			}
+			if at, ok := base.(*AType); ok && at.Kind == "named" && sel.Obj().Name() == "Underlying" && at.Under != nil {
+				return at.Under
+			}
+			if at, ok := base.(*AType); ok && at.Kind == "prim" && sel.Obj().Name() == "size" && isNamed(sel.Recv(), Mod+"/"+pkgTypes, "PrimitiveType") {
+				if f := pe.c.LookupFn(pkgTypes, "getPrimitiveSize"); f != nil {
+					if res := pe.call(f, nil, []Val{constant.MakeString(at.Name)}, depth+1); len(res) == 1 {
+						return res[0]
+					}
+				}
+			}
 			if at, ok := pe.expr(env, x.X, depth).(*AType); ok && at.Kind == "prim" && sel.Obj().Name() == "name" &&
 				isNamed(sel.Recv(), Mod+"/"+pkgTypes, "PrimitiveType") {
 				return constant.MakeString(at.Name)
@@ -612,6 +633,19 @@ func (pe *PEval) expr(env *penv, e ast.Expr, depth int) Val {
 			return unknownVal{"binary " + exprStr(x)}
 		}
 	case *ast.CompositeLit:
+		if len(x.Elts) > 0 {
+			if _, isKV := x.Elts[0].(*ast.KeyValueExpr); isKV {
+				sv := structVal{}
+				for _, el := range x.Elts {
+					if kv, ok := el.(*ast.KeyValueExpr); ok {
+						if id, ok := kv.Key.(*ast.Ident); ok {
+							sv[id.Name] = pe.expr(env, kv.Value, depth)
+						}
+					}
+				}
+				return sv
+			}
+		}
 		var out listVal
 		for _, el := range x.Elts {
 			out = append(out, pe.expr(env, el, depth))
@@ -677,7 +711,11 @@ func (pe *PEval) callExpr(env *penv, call *ast.CallExpr, depth int) []Val {
 						return []Val{constant.MakeString(at.Name)}
 					}
 				case "Unwrap":
-					return []Val{at}
+					u := at
+					for u.Kind == "named" && u.Under != nil {
+						u = u.Under
+					}
+					return []Val{u}
 				}
 				if fn := pe.c.FnOf(f); fn != nil && at.Kind == "prim" {
 					return pe.call(fn, at, args, depth+1)
@@ -692,8 +730,13 @@ func (pe *PEval) callExpr(env *penv, call *ast.CallExpr, depth int) []Val {
 	if f.Pkg() != nil {
 		switch {
 		case f.Pkg().Path() == Mod+"/"+pkgTypes && (f.Name() == "UnwrapType") && len(args) == 1:
-			if at, ok := args[0].(*AType); ok && at.Kind != "named" {
-				return []Val{at}
+			if at, ok := args[0].(*AType); ok {
+				for at.Kind == "named" && at.Under != nil {
+					at = at.Under
+				}
+				if at.Kind != "named" {
+					return []Val{at}
+				}
 			}
 		case f.Pkg().Path() == "fmt" && f.Name() == "Errorf", f.Pkg().Path() == "errors" && f.Name() == "New":
 			return []Val{errVal{}}
@@ -702,7 +745,20 @@ func (pe *PEval) callExpr(env *penv, call *ast.CallExpr, depth int) []Val {
 		}
 	}
 	if fn := pe.c.FnOf(f); fn != nil {
-		return pe.call(fn, nil, args, depth+1)
+		var recv Val
+		if sig.Recv() != nil {
+			if n := namedOf(sig.Recv().Type()); n != nil {
+				if v, ok := pe.RecvDefaults[n.Obj().Name()]; ok {
+					recv = v
+				}
+			}
+			if sel, ok := ast.Unparen(call.Fun).(*ast.SelectorExpr); ok {
+				if rv := pe.expr(env, sel.X, depth); !isUnknown(rv) {
+					recv = rv
+				}
+			}
+		}
+		return pe.call(fn, recv, args, depth+1)
 	}
 	out := make([]Val, max(1, sig.Results().Len()))
 	for i := range out {
